@@ -8,7 +8,7 @@ from ..gen import G, I
 ID = "C07"
 LEVEL = "exploration"
 RULE = ("cases are a scene (module variables; factories whose locals are captured by the closures they return, singly, "
-        "as a list sharing one local, or nested two deep; readers / setters / incrementers / shadowing bodies; higher-order "
+        "as a list sharing one local, or nested two deep, or created inside an if / else / while / from block of a factory that shadows a captured variable with a same-named local, or over an OPTIONAL local that closures bump and reset to nil through `modify`; readers / setters / incrementers / shadowing bodies; higher-order "
         "callers that deliberately own locals with the same names as captured variables) plus a history of up to 12 steps "
         "(create instance, call closure directly / through an alias / through a list / through a higher-order function / "
         "inside a block, owner assignment, print, is_closure()); a print follows every step. Oracle = reference interpreter "
@@ -78,7 +78,68 @@ def cases(draw):
         local = g.choice(mvars) if g.chance(30) else "c%d" % fi
         if local in mvars:
             g.label("factory-local-shadows-module-var")
-        shape = g.weighted([(3, "single"), (3, "pair"), (2, "nested"), (1, "mixed")])
+        shape = g.weighted([(3, "single"), (3, "pair"), (2, "nested"), (1, "mixed"), (3, "blockcreate"), (2, "elemwrite"), (2, "optstate")])
+        if shape == "elemwrite":
+            # a closure whose ONLY use of a captured list is as the target of an element assignment / op-assignment (and whose
+            # only use of a captured int is as the index) must still capture them
+            k = g.int(1, 9)
+            wk = g.choice(["seti", "opassign", "seti-last"])
+            if wk == "seti":
+                wbody = [("seti", V("lst"), I(0), I(k)), ("return", I(0))]
+            elif wk == "opassign":
+                wbody = [("opassign", ("index", V("lst"), I(1)), "+=", I(k)), ("return", I(0))]
+            else:
+                wbody = [("seti", V("lst"), I(1), I(k)), ("return", I(1))]
+            body = [("decl", "lst", ("list", "int"), ("list", [V("init"), I(0)]), ()), ("decl", "at", None, I(1), ()),
+                    ("decl", "fa", None, ("fn", [], "int", wbody), ()),
+                    ("decl", "fb", None, ("fn", [], "int", [("return", ("bin", "+", ("bin", "*", ("index", V("lst"), I(0)), I(100)), ("index", V("lst"), I(1))))]), ()),
+                    ("decl", "out", ("list", FI), ("list", [V("fa"), V("fb")]), ()), ("return", V("out"))]
+            facts.append((fname, "list"))
+            stmts.append(("decl", fname, None, ("fn", [("init", "int")], ("list", FI), body), ()))
+            g.label("captured-only-as-assignment-target:" + wk)
+            continue
+        if shape == "optstate":
+            # the captured variable is OPTIONAL: closures store plain values and nil into it through `modify`
+            k = g.int(1, 4)
+            start = ("nil",) if g.chance(60) else V("init")
+            OR = lambda d: ("or", V("oc"), I(d))
+            bump = ("fn", [], "int", [("decl", "oc", None, ("bin", "+", OR(0), I(k)), ("modify",)), ("return", OR(-1))])
+            if g.chance(50):
+                other = ("fn", [], "int", [("decl", "oc", ("opt", "int"), ("nil",), ("modify",)), ("return", OR(-7))])
+                g.label("feat:modify-optional-capture:bump+clear")
+            else:
+                other = ("fn", [], "int", [("return", OR(-5))])
+                g.label("feat:modify-optional-capture:bump+read")
+            body = [("decl", "oc", ("opt", "int"), start, ()),
+                    ("decl", "fa", None, bump, ()), ("decl", "fb", None, other, ()),
+                    ("decl", "out", ("list", FI), ("list", [V("fa"), V("fb")]), ()), ("return", V("out"))]
+            facts.append((fname, "list"))
+            stmts.append(("decl", fname, None, ("fn", [("init", "int")], ("list", FI), body), ()))
+            continue
+        if shape == "blockcreate":
+            # the factory captured a module variable AND owns a same-named local (local-copy idiom); the closure it returns is
+            # created inside an if / else / while block and must bind to the factory's LOCAL, the nearest one lexically
+            mv = g.choice(mvars)
+            inner = body_for(g.choice(["read", "inc", "condinc"]), mv, k=g.int(1, 3))
+            where = g.choice(["if", "else", "while", "from", "nested-if"])
+            assign = [("decl", "res", None, inner, ())]
+            if where == "if":
+                blk = ("if", ("bin", ">=", V("init"), I(0)), assign, None)
+            elif where == "else":
+                blk = ("if", ("bin", "<", V("init"), I(0)), [("print", S("neg"))], assign)
+            elif where == "while":
+                blk = ("while", ("bin", "<", V("go"), I(1)), [("decl", "go", None, ("bin", "+", V("go"), I(1)), ())] + assign)
+            elif where == "from":
+                blk = ("from", I(0), I(1), False, None, None, assign)
+            else:
+                blk = ("if", ("bin", ">=", V("init"), I(0)), [("if", ("bin", ">=", V("init"), I(0)), assign, None)], None)
+            body = [("decl", "before", None, V(mv), ()), ("decl", mv, None, ("bin", "+", V("init"), V("before")), ()),
+                    ("decl", "go", None, I(0), ()),
+                    ("decl", "res", None, ("fn", [], "int", [("return", ("bin", "-", I(0), I(1)))]), ()), blk, ("return", V("res"))]
+            facts.append((fname, "int"))
+            stmts.append(("decl", fname, None, ("fn", [("init", "int")], FI, body), ()))
+            g.label("closure-created-in-block-over-shadowing-local:" + where)
+            continue
         if shape == "single":
             kind = g.choice(["inc", "read", "condinc", "shadow", "loopsum", "mcallarg", "localcopy"])
             body = [("decl", local, None, V("init"), ()), ("return", body_for(kind, local, k=g.int(1, 3)))]
